@@ -12,7 +12,7 @@ META = {
                  "sequences_split_bars, then EVERY composition of the bar list into consecutive call groups (<=8) threading one state "
                  "dictionary; 4 configurations incl. running values on/off, unfused track/value/velocity, velocity_bins 1/8; plus the "
                  "carried-clock lemma with an UNBOUNDED symbolic clock value",
-        "thorough": "as quick with all 16 flag combinations and 3-note pieces on every plan",
+        "thorough": "as quick with all 16 flag combinations at 8 velocity bins (+4 at 1-2 bins)",
     },
     "outside_claim": ["pieces longer than 4 bars / 3 notes", "chunks that are not whole bars", "custom step sizes"],
     "stubs": ["np.digitize ite-sum", "int()/float() shadowed", "logging disabled", "find_minimal_distance ite-merged summary"],
@@ -193,7 +193,7 @@ def queries(tier, seed):
     qs = []
     cfgs = [(FLAGS[0], 1), (FLAGS[15], 8), (FLAGS[2], 8), (FLAGS[5], 8)]
     if tier == "thorough":
-        cfgs = [(fl, b) for fl in FLAGS for b in (1, 8)]
+        cfgs = [(fl, 8) for fl in FLAGS] + [(FLAGS[0], 1), (FLAGS[5], 1), (FLAGS[10], 2), (FLAGS[15], 1)]
     for fl, bins in cfgs:
         qs.append(q_groups("a", fl, bins, piece_a("none"), "none"))
         qs.append(q_groups("b", fl, bins, piece_b("44-34"), "44-34", direct=(fl[1] != fl[2])))
